@@ -17,7 +17,8 @@ ELEMENTS = ['a', 'ul', 'li.c', 'p#i', 'x[t=v]', 'x[t="a b"]', 'x[t]', 'd{text}',
             'x[a=b c=d]', "q[t='v']", 't{a{b}c}', 'br/', 'x[t="(a b)"]', 'x[t="f(1, \'2\')"]', 'd{a (b c) [d e]}',
             'p{a < b}', 'x[t="1<2"]',        # the prefix character inside text / a quoted value
             # nested braces inside text with round / square brackets to their left, to their right and around them
-            'f{[${1:x}]}', 'g{(a {b}) c}', 'h{{a} [b]}']
+            'f{[${1:x}]}', 'g{(a {b}) c}', 'h{{a} [b]}',
+            'y[t="=>"]']                     # the two-character prefix inside a quoted value (a partial match of it follows the `]`)
 JOINS = ['>', '+', '^', '*3>', '*2+']
 STYLE_ABBRS = ['p10', 'm10-20', 'c#fc0.5', 'p10!', '@m', 'd:n', 'p10+m20', 'w100p', 'm-10--20', 'trf-s(2)', 'bd1-s', 'fz1.5e', 'lg(a,b)']
 LEFT = ['', ' ', 'foo ', '\t', '<div>', '<a href="x">', '</p>', '<br/>', '<img src=x>', '<p class=a>', 'a b="c" ', '> ',
